@@ -540,6 +540,6 @@ func build(tier string) ([]runner.Instance, time.Duration) {
 }
 
 func main() {
-	runner.Main(runner.Options{Property: "C11", Level: "exploration", Build: build,
+	runner.Main(runner.Options{Property: "C11", Level: "exploration", Build: build, RacePoints: true,
 		Assume: []string{"model of sync/context/channels in verif/vs (DESIGN §2.2)", "Group: only start-once, await-all and error collection are asserted (members may be cancelled as soon as the group's Run returns)", "runtime.NumCPU seam = 2", "small scope: <=2 services, <=2 jobs (3 cleanup jobs thorough), <=2 workers"}})
 }
